@@ -26,7 +26,7 @@ CLAIM = {
             "edges after `!path.contains(v)` (else Err) and extends the path by v, starting at the root; (R05.5) add_node registers a "
             "plain name under itself and a client~server name under both halves pointing to one node named by the whole string, reuses "
             "existing nodes (entry().or_insert*), edges go from the part before `#` to the part after it and carry the diff file's path, "
-            "and the returned graph/versions are the ones filled by the scan.",
+            "and the returned graph/versions are the ones filled by the scan. Premises evaluated with it (code on the resolution path): C04 R04.1/2/4/5/6/7 (reading and applying .tinydiff), C11 R11.1-3 (inner-class-name extension), C03 R03.6/7 (keyed insertion and indentation iterator of the root reader).",
     "note": "Not decided: equality of the result with 'root + diffs on the path' (needs C04's behavioural part), which path astar "
             "picks in a diamond, independence of read_dir order, collisions of half names between different split versions, cycles "
             "not reachable from the root (those versions end in 'no path'). Trusted: rustc HIR/typeck/const-eval, petgraph's astar / "
